@@ -50,6 +50,7 @@ Definition kind_class (k : tok_kind) : tcl :=
       | KVar => CDk DkVar | KVarInput => CDk DkVarInput | KVarOutput => CDk DkVarOutput | KVarInOut => CDk DkVarInOut
       | KVarExternal => CDk DkVarExternal | KEndVar => CDk DkEndVar | KConstant => CDk DkConstant | KRetain => CDk DkRetain
       | KNonRetain => CDk DkNonRetain | KREdge => CDk DkREdge | KFEdge => CDk DkFEdge
+      | KType => CDk DkType | KEndType => CDk DkEndType | KArray => CDk DkArray
       | _ => COther
       end
   end.
@@ -229,6 +230,49 @@ Definition parse_lib_tokens (toks : list token) : outcome3 :=
     | LFuel => O3Fuel
     end
   else O3Scope.
+
+(* ---- ... and TYPE blocks among them ---- *)
+Definition is_int_ty (t : token) : bool :=
+  match t_kind t with KSint | KInt | KDint | KLint | KUsint | KUint | KUdint | KUlint => true | _ => false end.
+
+Inductive elem := ETypes (l : list tdecl) | EUnit (u : unit_).
+Inductive l2res := L2Ok (es : list elem) (rest : list token) | L2Scope | L2Fuel.
+(* library_element_declaration: data_type_declaration / function_block_declaration / program_declaration *)
+Fixpoint elements (fuel n : nat) (acc : list elem) (ts : list token) : l2res :=
+  match n with
+  | O => L2Fuel
+  | S n' =>
+      match type_block token tok_class t_text tok_num ty_name is_int_ty fuel (st_skip ts) with
+      | DOk (l, r) => elements fuel n' (acc ++ [ETypes l]) r
+      | DScope => L2Scope
+      | DFuel => L2Fuel
+      | DFail =>
+          match parse_unit fuel (st_skip ts) with
+          | UOk u r => elements fuel n' (acc ++ [EUnit u]) r
+          | UFail => L2Ok acc ts
+          | UScope => L2Scope
+          | UFuel => L2Fuel
+          end
+      end
+  end.
+
+Inductive outcome4 := O4Parsed (es : list elem) | O4Rejected | O4Fuel | O4Scope.
+Definition parse_lib2_tokens (toks : list token) : outcome4 :=
+  if in_scope token tok_class toks then
+    let fuel := (3 * List.length toks + 8)%nat in
+    match elements fuel fuel [] toks with
+    | L2Ok es r => match st_skip r with [] => O4Parsed es | _ => O4Rejected end
+    | L2Scope => O4Scope
+    | L2Fuel => O4Fuel
+    end
+  else O4Scope.
+
+Definition parse_lib2_text (t : text) : outcome4 :=
+  let '(toks, errs) := tokenize_program t in
+  match errs with
+  | [] => parse_lib2_tokens toks
+  | _ => O4Rejected
+  end.
 
 Definition parse_lib_text (t : text) : outcome3 :=
   let '(toks, errs) := tokenize_program t in
